@@ -58,7 +58,7 @@ type cluH struct{}
 func init() { Register("cluster", cluH{}) }
 
 var appNames = []string{"app", "web", "a_b"}
-var entryNames = []string{"main", "api"}
+var entryNames = []string{"main", "api", "main2"} // (one entrypoint name is a prefix of another)
 var strategies = []string{"AUTO", "AUTO", "FILL", "EACH", "GLOBAL", "DRAINED"}
 
 func genCluCfg(g *rand.Rand, property string) cluCfg {
@@ -78,6 +78,9 @@ func genCluCfg(g *rand.Rand, property string) cluCfg {
 		}
 		if g.IntN(3) == 0 {
 			n.Labels = map[string]string{"zone": fmt.Sprintf("z%d", g.IntN(2))}
+			if g.IntN(4) == 0 {
+				n.Labels["gpu"] = ""
+			}
 		}
 		cfg.Nodes = append(cfg.Nodes, n)
 	}
@@ -100,6 +103,10 @@ func genFilter(g *rand.Rand, cfg *cluCfg, op *cluOp) {
 		}
 		if g.IntN(3) == 0 {
 			op.Labels = map[string]string{"zone": fmt.Sprintf("z%d", g.IntN(2))}
+			if g.IntN(4) == 0 {
+				// a label asked for with an empty value: only nodes that carry the key match
+				op.Labels = map[string]string{[]string{"zone", "gpu"}[g.IntN(2)]: ""}
+			}
 		}
 	default:
 		op.UsePod = true
@@ -316,7 +323,7 @@ func (cluH) Generate(property string, seed uint64, tier string) *Case {
 			if property == "C12" && g.IntN(2) == 0 {
 				op = genCreate(g, &cfg, property)
 			}
-			if property == "C13" && op.Kind == "create" && g.IntN(8) == 0 {
+			if (property == "C13" || property == "C12" || property == "C11" || property == "C10") && op.Kind == "create" && g.IntN(8) == 0 {
 				// machines on which creating a container takes minutes (a large image to fetch):
 				// the deployment as a whole then runs longer than any of the timeouts it sets
 				op.Secs = 200 + g.IntN(250)
